@@ -225,7 +225,7 @@ class _Integrator(ABC):
             A solution with repeated states and derivatives when the time
             span is effectively zero, otherwise ``None``.
         """
-        if t_vals.size >= 2 and np.isclose(t_vals[0], t_vals[-1]):
+        if t_vals.size >= 2 and t_vals[0] == t_vals[-1]:
             f = system.rhs
             deriv0 = f(t_vals[0], y0)
             states = np.repeat(y0[None, :], repeats=t_vals.size, axis=0)
